@@ -25,7 +25,7 @@ CLAIMS = {
          "each interactive issuance site is gated by a Before event on which lock and confirm register their veto; veto handlers and middlewares pass only under !IsLocked / GetConfirmed of the current user; restarted confirmation marks the account unconfirmed",
          "handler-order effects, storage freshness"),
  'C04': ("must-pass-through on failure edges with path-sensitive boolean pruning, normalised-comparison matching, mutation-then-save",
-         "every failed password/OTP/2FA check passes FireAfter(EventAuthFail); lock's wiring, flag constants, the window/threshold comparisons and lock-instant expressions, and saving of every counter mutation",
+         "every failed password/OTP/2FA check passes FireAfter(EventAuthFail); lock's wiring, flag constants, the window/threshold comparisons and lock-instant expressions, and saving of every counter mutation; every completion of the lock-state routine (failed attempt assumed) passes PutAttemptCount, PutLastAttempt and Save, every completion of Unlock resets and saves; the password reaches the hasher as submitted at every call site",
          "the counting automaton over histories and clocks"),
  'C05': ("all-of edge-dominance gates on every mutation, codec agreement (encoders, split offsets) between token writer and readers, mutation-then-save",
          "every user mutation/save in confirm.Get and recover.EndPost is gated by decode, size, selector look-up, constant-time verifier compare (and expiry); selector/verifier are cleared with constants and saved; generator and parsers agree on encodings and the split point",
@@ -46,7 +46,7 @@ CLAIMS = {
          "logout deletes all (minus whitelist) + uid/halfauth/last_action + rm cookie unconditionally after the before-event; route registered on exactly the configured method and the default router serves each table only for its own method; library hooks on EventLogout do not depend on a loadable user; client-state events are flushed in queue order",
          "integrator's WriteState honouring DelAll"),
  'C11': ("typestate of ClientStateResponseWriter (hasWritten) by dominance, who-may-write on the event queues, family pairing",
-         "flush precedes every underlying write on every path and is guarded by !hasWritten, which is set before any WriteState; only setState appends, to the queue of its own family; queues are delivered unmodified",
+         "flush precedes every underlying write on every path and is guarded by !hasWritten, which is set before any WriteState; only setState appends, to the queue of its own family; queues are delivered unmodified; every Put/Del/DelAll API call queues its event on every returning path; the default responders write through the ResponseWriter on every successful completion",
          "Hijack/ResponseController paths"),
  'C12': ("must-pass-through consume+save before issuance, removal-at-matched-index shape, normalised comparison for the OTP limit",
          "OTP / recovery code / SMS code / TOTP last-code consumption is saved (or deleted) before the session is written; the matched OTP is the one removed; at most maxOTPs",
